@@ -3,9 +3,11 @@
 From Ergo Require Import Common.Base Hs.Model Hs.Proofs.
 Local Open Scope N_scope.
 
-(* An attacker whose knowledge K (transcripts of any number of earlier sessions, other cookies, own
-   strings) does not expose cookie c cannot derive c, and every hash over c it can present was computed
-   by a party that knows c and already occurs in K. *)
+(* ---- the attacker -------------------------------------------------------------------------------
+   K: every term of every frame of any number of earlier sessions (honest or disturbed), other cookies,
+   own strings.  [guarded c K]: no element of K exposes cookie c outside a hash (true of everything the
+   honest roles write).  Then c is not derivable and every hash over c that the attacker can present
+   already occurs in K, i.e. was computed by a holder of c. *)
 Theorem C15_cookie_secret : forall c K, guarded c K -> ~ derives K (Cookie c).
 Proof. exact cookie_secret. Qed.
 Print Assumptions C15_cookie_secret.
@@ -15,12 +17,132 @@ Theorem C15_hash_not_forgeable : forall c K l, guarded c K ->
 Proof. exact secret_hash_not_forgeable. Qed.
 Print Assumptions C15_hash_not_forgeable.
 
-(* Hello path, acceptor: whatever frames a peer without the cookie sends (each derivable from K and
-   from what the acceptor wrote in this session), the acceptor with a fresh salt never accepts an
-   Introduce, hence never returns a HandshakeResult through the Hello path. *)
+(* ---- Hello path ----------------------------------------------------------------------------------
+   Acceptor: whatever frames a peer without the cookie sends (each derivable from K and from what the
+   acceptor wrote so far in this session), an acceptor whose salt nB is fresh for K never accepts an
+   Introduce: the digest it expects, H(salt_B : c), is not derivable. *)
 Theorem C15_hello_auth : forall p nB nID ps K ins,
   guarded (p_cookie p) K -> unseen nB K ->
   adv_feeds_acc p nB nID ps K A0 ins ->
   hello_accepted (fst (acc_run p nB nID ps A0 ins)) = false.
 Proof. exact hello_auth_acceptor. Qed.
 Print Assumptions C15_hello_auth.
+
+Theorem C15_hello_auth_digest : forall p nB K d1,
+  guarded (p_cookie p) K -> unseen nB K -> derives K d1 ->
+  ~ derives (K ++ [Salt nB; acc_digest p nB d1]) (mkH [Salt nB; Cookie (p_cookie p)]).
+Proof. exact intro_digest_underivable. Qed.
+Print Assumptions C15_hello_auth_digest.
+
+(* Initiator (dual): the expected H(salt_B : digest_A : c) contains the initiator's fresh salt; the
+   initiator never gets past its Hello check, writes nothing more and returns no result. *)
+Theorem C15_hello_auth_initiator : forall p nA K ins,
+  guarded (p_cookie p) K -> unseen nA K ->
+  adv_feeds_init p nA (K ++ wire_terms [init_hello p nA]) I1 ins ->
+  init_passed_hello (fst (init_run p nA I1 ins)) = false /\ snd (init_run p nA I1 ins) = [].
+Proof. exact hello_auth_initiator. Qed.
+Print Assumptions C15_hello_auth_initiator.
+
+(* ---- Join path -----------------------------------------------------------------------------------
+   The dialling side authenticates the acceptor (the answer covers its fresh salt) ... *)
+Theorem C15_join_initiator_auth : forall p cid nJ K ins,
+  guarded (p_cookie p) K -> unseen nJ K -> In cid K ->
+  (forall m, In m ins -> msg_derivable (K ++ [Salt nJ; join_digest p cid nJ]) m) ->
+  join_final p cid nJ ins <> JDone.
+Proof. exact join_initiator_auth. Qed.
+Print Assumptions C15_join_initiator_auth.
+
+(* ... but the acceptor contributes no freshness: a recorded Join replayed verbatim (even with the Node
+   field rewritten) by a party that cannot derive the cookie is accepted.  Known finding. *)
+Theorem C15_join_replay_refuted : exists (p : party) (K : list term) (ins : list msg) (nB nID : N) (ps : Z),
+  guarded (p_cookie p) K /\ unseen nB K /\ ~ derives K (Cookie (p_cookie p)) /\
+  (forall m, In m ins -> msg_derivable K m) /\
+  acc_accepted (acc_final p nB nID ps ins) = true.
+Proof. exact join_replay_refuted. Qed.
+Print Assumptions C15_join_replay_refuted.
+
+(* The strongest statement that holds for the acceptor: it accepts an adversary only through a first
+   frame that is a Join whose digest was computed by a cookie holder for that very id and salt. *)
+Theorem C15_accept_partial : forall p nB nID ps K ins,
+  guarded (p_cookie p) K -> unseen nB K ->
+  adv_feeds_acc p nB nID ps K A0 ins ->
+  acc_accepted (fst (acc_run p nB nID ps A0 ins)) = true ->
+  exists node cid s d tl, ins = MJoin node cid s d :: tl /\ sec_in (p_cookie p) K d.
+Proof. exact accept_partial. Qed.
+Print Assumptions C15_accept_partial.
+
+(* ---- agreement and cookie choice (faithful link) -------------------------------------------------- *)
+Theorem C15_agreement : forall pa pb nA nB nID ps,
+  p_cookie pa = p_cookie pb -> p_name pa <> p_name pb ->
+  let s := run_pair pa pb nA nB nID ps in
+  s_init s = IDone (mk_res (p_name pb) (Salt nID) (p_creation pb) (wire_flags (p_flags pb)) (p_mms pb) (p_flags pa) (p_mms pa)) ps /\
+  s_acc s = ADone (mk_res (p_name pa) (Salt nID) (p_creation pa) (wire_flags (p_flags pa)) (p_mms pa) (p_flags pb) (p_mms pb)).
+Proof. exact pair_same_cookie. Qed.
+Print Assumptions C15_agreement.
+
+Theorem C15_different_cookie_fails_both : forall pa pb nA nB nID ps,
+  p_cookie pa <> p_cookie pb ->
+  let s := run_pair pa pb nA nB nID ps in s_init s = IFail EIO /\ s_acc s = AFail EDigest.
+Proof. exact pair_different_cookie. Qed.
+Print Assumptions C15_different_cookie_fails_both.
+
+Theorem C15_cookie_choice : forall node_a route_a node_b acc_b pa pb nA nB nID ps,
+  p_cookie pa = route_cookie node_a route_a -> p_cookie pb = acceptor_cookie node_b acc_b ->
+  p_name pa <> p_name pb ->
+  connected (run_pair pa pb nA nB nID ps) =
+  N.eqb (if N.eqb route_a 0 then node_a else route_a) (if N.eqb acc_b 0 then node_b else acc_b).
+Proof. exact cookie_choice. Qed.
+Print Assumptions C15_cookie_choice.
+
+(* on an active network agreement fails: the Introduce body is outside every digest (live relay) *)
+Theorem C15_agreement_active_refuted : live_relay_b = true.
+Proof. exact live_relay_refuted. Qed.
+Print Assumptions C15_agreement_active_refuted.
+
+(* ---- permission tables ---------------------------------------------------------------------------- *)
+Theorem C15_spawn_table : forall h name peer,
+  allowed h name peer = true ->
+  exists h1 op h2, h = h1 ++ op :: h2 /\ op_enables name peer op = true /\
+                   forall o, In o h2 -> op_disables name peer o = false.
+Proof. intros h name peer Ha. apply spec_allowed_exists. apply table_safe. exact Ha. Qed.
+Print Assumptions C15_spawn_table.
+
+(* application start: the same table code with a single factory identity *)
+Theorem C15_appstart_table : forall h name peer,
+  Forall (fun op => match op with Enable _ fid _ => fid = 0 | _ => True end) h ->
+  allowed h name peer = true -> spec_allowed h name peer = true.
+Proof. intros h name peer _. apply table_safe. Qed.
+Print Assumptions C15_appstart_table.
+
+Theorem C15_table_converse_refuted : table_converse_b = true.
+Proof. exact table_converse_refuted. Qed.
+Print Assumptions C15_table_converse_refuted.
+
+(* ---- flags and env --------------------------------------------------------------------------------- *)
+Theorem C15_flags : forall field peer_fl node_fl h name source,
+  granted (remote_request field peer_fl node_fl (trun h) name source) = true ->
+  flag_ok node_fl field = true /\ flag_ok peer_fl field = true /\ spec_allowed h name source = true.
+Proof. exact flags_gate. Qed.
+Print Assumptions C15_flags.
+
+Theorem C15_flags_off : forall field peer_fl node_fl t name source,
+  f_enable node_fl = true -> field node_fl = false ->
+  granted (remote_request field peer_fl node_fl t name source) = false.
+Proof. exact flags_off_never. Qed.
+Print Assumptions C15_flags_off.
+
+Theorem C15_env : forall (expose : bool) (env : list (N * N)), env_sent expose env <> [] -> expose = true.
+Proof. intros expose env. apply env_only_when_exposed. Qed.
+Print Assumptions C15_env.
+
+(* non-vacuity: a recorded honest session gives a guarded, non-trivial knowledge for which the salt 901
+   is unseen; the replayed initiator frames are derivable and drive the acceptor to its digest check *)
+Example C15_example :
+  let K := wire_terms (map snd (s_wire (run_pair replay_peer replay_party 11 12 13 3%Z))) in
+  forallb (fun t => negb (exposed 1 t) && negb (occurs 901 t)) K = true /\
+  length K = 12%nat /\
+  fst (acc_run replay_party 901 902 3%Z A0
+         [init_hello replay_peer 11; intro_of replay_peer (mkH [Salt 12; Cookie 1])]) = AFail EDigest /\
+  allowed [Enable 1 7 [5]; Disable 1 [6]; Enable 2 0 []] 1 5 = true /\
+  allowed [Enable 1 7 [5]; Disable 1 [5]] 1 5 = false.
+Proof. vm_compute. repeat split; reflexivity. Qed.
